@@ -75,6 +75,20 @@ ADDED = {  # name -> version in which it first exists (later than the declared l
     "time.perf_counter_ns": "py3.7", "time.time_ns": "py3.7", "datetime.UTC": "py3.11",
     "datetime.datetime.fromisoformat": "py3.7",
 }
+# methods of built-in types and keyword arguments of built-ins that appeared after the declared lower bound (python 3.6);
+# recognised by name on any receiver (the package defines no attributes with these names - checked below)
+BUILTIN_METHODS_ADDED = {
+    "removeprefix": ("str/bytes", "3.9"), "removesuffix": ("str/bytes", "3.9"), "isascii": ("str/bytes", "3.7"),
+    "bit_count": ("int", "3.10"), "as_integer_ratio": ("int (float has it earlier)", "3.8"),
+    "fromisoformat": ("datetime", "3.7"), "reconfigure": ("io.TextIOWrapper", "3.7"),
+    "readlink": ("pathlib.Path", "3.9"), "is_relative_to": ("pathlib.Path", "3.9"), "with_stem": ("pathlib.Path", "3.9"),
+    "hardlink_to": ("pathlib.Path", "3.10"), "is_mount": ("pathlib.Path", "3.7"),
+    "add_note": ("BaseException", "3.11"), "pairwise": ("itertools", "3.10"), "batched": ("itertools", "3.12"),
+    "total": ("collections.Counter", "3.10"), "cache_parameters": ("functools.lru_cache", "3.9"),
+}
+BUILTIN_KWARGS_ADDED = {("zip", "strict"): "3.10", ("int", "base"): None, ("sum", "start"): "3.8", ("pow", "mod"): "3.8",
+                        ("print", None): None, ("open", None): None, ("math.prod", None): None}
+
 GUARD_EXC = {"AttributeError", "ImportError", "ModuleNotFoundError", "Exception", "BaseException"}
 
 RESOLVER = r'''
@@ -136,6 +150,8 @@ class Collector(ast.NodeVisitor):
         self.refs = []
         self.imports = []    # (line, module, names, guarded, level)
         self.syntax = []     # (line, feature, since)
+        self.builtin_uses = []   # (line, what, since, guarded)
+        self.defined_attrs = set()
         self.try_stack = []  # (group id, 'body'|'handler')
         self.shadow = [set()]
         self._gid = 0
@@ -247,6 +263,25 @@ class Collector(ast.NodeVisitor):
     def visit_JoinedStr(self, node):
         self.generic_visit(node)
 
+    def _builtin_call(self, node):
+        f = node.func
+        if isinstance(f, ast.Attribute) and f.attr in BUILTIN_METHODS_ADDED:
+            typ, since = BUILTIN_METHODS_ADDED[f.attr]
+            guarded, in_handler, group = self._guard()
+            self.builtin_uses.append((node.lineno, ".%s() [%s]" % (f.attr, typ), since, guarded or in_handler))
+        if isinstance(f, ast.Name) and not any(f.id in sh for sh in self.shadow):
+            for kw in node.keywords:
+                since = BUILTIN_KWARGS_ADDED.get((f.id, kw.arg))
+                if since:
+                    guarded, in_handler, group = self._guard()
+                    self.builtin_uses.append((node.lineno, "%s(..., %s=)" % (f.id, kw.arg), since, guarded or in_handler))
+
+    def visit_ClassDef(self, node):
+        for st in node.body:
+            if isinstance(st, (ast.FunctionDef, ast.AsyncFunctionDef)):
+                self.defined_attrs.add(st.name)
+        self.generic_visit(node)
+
     # references ---------------------------------------------------------
     def visit_Attribute(self, node):
         chain = []
@@ -271,6 +306,7 @@ class Collector(ast.NodeVisitor):
             self.refs.append(Ref(self.file, node.lineno, mod, [name], guarded, in_handler, group, "name"))
 
     def visit_Call(self, node):
+        self._builtin_call(node)
         # getattr(np, "x", default) is a guard on its own
         if isinstance(node.func, ast.Name) and node.func.id in ("getattr", "hasattr") and node.args:
             for a in node.args[1:]:
@@ -420,6 +456,24 @@ def run(tier="quick", seed=0, only=None, verbose=False):
             ob.replay = _native_ref_replay(r, detail)
         seen[key] = ob
         rep.add(ob)
+
+    # methods / keyword arguments of built-ins newer than python_requires (3.6)
+    own = set()
+    for c in collectors:
+        own |= c.defined_attrs
+    for c in collectors:
+        bad = [(line, what, since) for (line, what, since, guarded) in c.builtin_uses
+               if not guarded and what.split("(")[0].strip(".") not in own]
+        for (line, what, since) in bad:
+            rep.add(Obligation("builtin:%s:%d:%s" % (c.file, line, what.split("(")[0].strip(".")), "names-resolve",
+                               "%s:%d uses %s, available only from python %s, but python_requires is >=3.6" % (c.file, line, what, since),
+                               FAILED, "ast+history-table", 0,
+                               detail="unguarded use of an interface of a built-in type that is absent from python 3.6 .. %s" % since,
+                               replay=dict(signature="builtin-method", confirmed=False)))
+        if not bad:
+            rep.add(Obligation("builtin-ok:" + c.file, "names-resolve", c.file + " uses no method or keyword of a built-in type that is "
+                               "newer than python 3.6 (table BUILTIN_METHODS_ADDED / BUILTIN_KWARGS_ADDED, assumed)", DISCHARGED,
+                               "ast+history-table", 0))
 
     # syntax newer than python_requires (3.6)
     for c in collectors:
